@@ -271,7 +271,7 @@ static inline void MakeValue(Ctx & c, Value & v, int cls, uint32 tc, int depth, 
    case TC_RAW: case TC_USER: RandBlob(c, v.bytes, manyItems); c.budget -= (long)(v.bytes.size() / 64); if (v.bytes.empty() && c.t) c.t->zeroLengthItems++; break;
    case TC_MESSAGE: v.msg = GenAux(c, depth + 1, manyItems || c.budget < 50); break;
    case TC_POINTER: v.ptr = &gPtrTargets[c.R(8)]; break;
-   case TC_TAG: if (c.R(2)) v.tag = GetMessageFromPool(c.R(5)).GetRefCountableRef(); else v.tag = GetByteBufferFromPool(c.R(4)).GetRefCountableRef(); if (v.tag() == NULL) BuildFail("tag object", B_OUT_OF_MEMORY); break;
+   case TC_TAG: if (c.R(2)) v.tag = GetMessageFromPool(c.R(5)).GetRefCountableRef(); else { static const uint8 tagBytes[4] = {'t', 'a', 'g', 0}; v.tag = GetByteBufferFromPool(c.R(4), tagBytes).GetRefCountableRef(); }   // (initialised: Print() shows the bytes of a ByteBuffer tag) if (v.tag() == NULL) BuildFail("tag object", B_OUT_OF_MEMORY); break;
    }
 }
 
